@@ -19,6 +19,7 @@ import (
 	"io"
 	"net"
 	"os"
+	"runtime/pprof"
 	"strings"
 	"time"
 
@@ -53,6 +54,11 @@ func main() {
 	vh.Must(err, "open devnull")
 	os.Stdout = devnull
 
+	if pf := os.Getenv("C18_PPROF"); pf != "" {
+		f, _ := os.Create(pf)
+		pprof.StartCPUProfile(f)
+		defer pprof.StopCPUProfile()
+	}
 	res := vh.NewResult()
 	w := newWorld(*dir, *seed, res)
 	switch *mode {
@@ -82,6 +88,7 @@ func main() {
 	}
 	w.closeTrace()
 	w.stop()
+	pprof.StopCPUProfile()
 	os.Stdout = realStdout
 	res.Emit()
 }
